@@ -346,8 +346,15 @@ def delivery_sites(program, rep, prop, want):
                         fa = f.node.args
                         va = fa.vararg.arg if fa.vararg else None
                         kw = fa.kwarg.arg if fa.kwarg else None
+                        # `**kwargs` (or `*args`) may be left out on a path
+                        # that found it empty
+                        empty = {e2.sym.text for e2 in tr
+                                 if e2.kind == 'cond' and e2.extra is False}
                         if va and kw:
-                            okargs = rest == [f'*{va}'] and kws == [(None, kw)]
+                            okargs = (rest == [f'*{va}'] or (
+                                rest == [] and va in empty)) and (
+                                kws == [(None, kw)] or (
+                                    kws == [] and kw in empty))
                         else:
                             okargs = (len(rest) == 1 and rest[0].startswith(
                                 '*') and len(kws) == 1 and kws[0][0] is None)
